@@ -512,6 +512,13 @@ def rule_r6_extent(ctx: Ctx) -> None:
     ctx.check(not bad, d.short + ".extent", "declared extent", "extent of a delimited composite = declared extent", d.module.relpath, bad)
 
 
+def rule_r7_keys(ctx: Ctx) -> None:
+    from . import approx_keys
+
+    ctx.rule("C02.R7", "the layout definitions identify no length set / type by its approximate equality (no de-duplication, dict key, set member or memo keyed by BitLengthSet / SerializableType equality)", min_instances=1)
+    approx_keys.rule(ctx, "C02.R7", ["_bit_length_set._bit_length_set", "_serializable"], "two different length sets (or two types with different layouts) may compare equal: a variant / field dropped or looked up by equality changes the set of possible lengths", "pydsdl/_serializable/_composite.py")
+
+
 def run(ctx: Ctx) -> None:
     ctx.attempt(rule_r1_prefix, ctx)
     ctx.attempt(rule_r2_tag, ctx)
@@ -519,6 +526,7 @@ def run(ctx: Ctx) -> None:
     ctx.attempt(rule_r4_alignment, ctx)
     ctx.attempt(rule_r5_terms, ctx)
     ctx.attempt(rule_r6_extent, ctx)
+    ctx.attempt(rule_r7_keys, ctx)
     ctx.assume("reachable alignments are {1, 8} (R4); capacities < 2**64")
     ctx.undecided("that every element of every set is a multiple of the alignment as a *set* fact, and the exactness of the bit-length-set arithmetic itself (C01)")
     ctx.analysed["modules"] = ["_serializable/_primitive", "_void", "_array", "_composite"]
